@@ -8,7 +8,7 @@ ID = "C09"
 ENGINE = "K"
 RUNS = {"quick": 4000, "thorough": 80000}
 BATCH_WALL_CAP = {"quick": 1500, "thorough": 6 * 3600}
-RUN_WALL_CAP = 600
+RUN_WALL_CAP = 1200
 RECHECK = {"quick": 12, "thorough": 200}
 MIN_BUDGET = 60
 MIN_WALL = 240.0
